@@ -1,9 +1,14 @@
 (* C01 property theorems only: each closed by `exact <lemma>` with Print Assumptions beneath.
-   Vocabulary: Model.v (executable model of surface.py/linear.py, parts generated in Gen.v), Pure.v (`pure_answer`:
-   the answer of a query as a function of mesh, configuration and query alone), Spec.v ("direct inspection of the
-   face list": sp_* functions, ring_spec, wf_faces / wf_mesh = oriented manifold polygon surface),
-   ProofsTables.v (mesh_of: the mesh seen by the connectivity code is built from these faces; nbrs),
-   ProofsMain.v (tables_answers_correct, border_partition_stmt: the statements spelled out). *)
+   Vocabulary: Model.v (executable model of surface.py/linear.py; guards, keys, entries, index formulas, argument orders,
+   return expressions, branch tests generated in Gen.v), Pure.v (`pure_answer`: the answer of a query as a function of mesh,
+   configuration and query alone), Spec.v ("direct inspection of the face list": sp_* functions on the corner list,
+   ring_spec, wf_faces / wf_mesh = oriented manifold polygon surface, and their boolean checkers).
+   Further specification vocabulary is defined next to the lemmas that use it (definitions only, no proof content):
+   ProofsTables.v (edge_valid, mesh_of: the mesh seen by the connectivity code is built from these faces; nbrs),
+   ProofsVerts.v (edges_exact, sp_target, sp_source_prev, sp_vertex_ring), ProofsMore.v (sp_corner_face, sp_other_edge_end,
+   sp_side, sp_opposite_face_inds, sp_common_edge_loop), ProofsRing.v (valid_corner),
+   ProofsMain.v (tables_answers_correct, border_partition_stmt, derived_lists_stmt, remaining_accessors_stmt: the
+   statements spelled out). *)
 From Coq Require Import ZArith List Bool Sorting.Permutation.
 Require Import MV.C01.Defs MV.C01.Gen MV.C01.Model MV.C01.Spec MV.C01.Pure MV.C01.ProofsTables MV.C01.ProofsQuery
         MV.C01.ProofsMore MV.C01.ProofsVerts MV.C01.ProofsMain.
@@ -11,21 +16,16 @@ Open Scope Z_scope.
 
 (* 1. Query-order independence, all oriented manifold polygon surfaces, sorting on or off: whatever script of public
       queries (including clear / clear_boundary_data) was issued on a fresh mesh before, every query is answered by its
-      pure answer.  With the empty script this is "a query on a fresh mesh answers what it answers later". *)
+      pure answer.  With the empty script this is "a query on a fresh mesh answers what it answers later".
+      The pure answer may itself be an exception value (AErr) for arguments that name no element (e.g. an absent face id):
+      the statement is equality of answers, not absence of errors; that the table computations raise nothing is theorem 2,
+      that the answers for existing elements are the values of direct inspection is theorems 3-9. *)
 Theorem C01_query_order_independent :
   forall nv faces m sortflag, wf_mesh nv faces -> mesh_of nv faces m ->
   forall (qs : list query) (q : query),
     snd (query_step m sortflag (run_script m sortflag qs) q) = pure_answer m sortflag q.
 Proof. exact query_order_independent_wf. Qed.
 Print Assumptions C01_query_order_independent.
-
-(* 1'. The same for ANY mesh (manifold or not) on which the border computation raises no exception. *)
-Theorem C01_query_order_independent_any_mesh :
-  forall (m : mesh) (sortflag : bool), (exists r, IBV m sortflag = Ok r) ->
-  forall (qs : list query) (q : query),
-    snd (query_step m sortflag (run_script m sortflag qs) q) = pure_answer m sortflag q.
-Proof. exact query_order_independent. Qed.
-Print Assumptions C01_query_order_independent_any_mesh.
 
 (* 2. The lazily computed tables never raise on a manifold surface, whatever the configuration. *)
 Theorem C01_compute_total :
